@@ -237,7 +237,32 @@ class Check:
                     self.proof["errors"].append("%s: %s depends on non-library axioms %s" % (f, th, bad))
                 else:
                     self.proof["discharged"] += 1
+        if self.tier == "thorough" and not self.proof["errors"]:
+            self.coqchk(files)
         return not self.proof["errors"]
+
+    def coqchk(self, files):
+        """thorough tier: re-check the compiled property files and everything they depend on with the independent
+        checker coqchk and record the axioms it reports"""
+        for f in files:
+            lib = "Verif." + f[:-2].replace("/", ".")
+            try:
+                rc, out = sh("timeout 1500 coqchk -silent -R . Verif -o %s" % lib, cwd=COQ, timeout=1600)
+            except subprocess.TimeoutExpired:
+                self.extra.setdefault("coqchk", {})[f] = "timed out"
+                continue
+            m = re.search(r"\* Axioms:(.*?)\n\s*\n\* Constants/Inductives relying on type-in-type:(.*?)\n\s*\n"
+                          r"\* Constants/Inductives relying on unsafe \(co\)fixpoints:(.*?)\n\s*\n"
+                          r"\* Inductives whose positivity is assumed:(.*?)\n", out, re.S)
+            if rc != 0 or not m:
+                self.proof["errors"].append("coqchk failed on %s: %s" % (lib, out[-800:]))
+                continue
+            axioms = [a.strip() for a in m.group(1).split("\n") if a.strip() and a.strip() != "<none>"]
+            unsafe = [g.strip() for g in m.groups()[1:] if g.strip() != "<none>"]
+            self.extra.setdefault("coqchk", {})[f] = {"axioms": axioms, "type_in_type/unsafe_fix/positivity": unsafe or "none"}
+            bad = [a for a in axioms if not any(a.endswith(x.split(".")[-1]) or x in a for x in ALLOWED_AXIOMS)]
+            if unsafe:
+                self.proof["errors"].append("coqchk: %s relies on disabled kernel checks: %s" % (lib, unsafe))
 
     # ----- extracted model -------------------------------------------------------------
     def build_driver(self):
